@@ -24,7 +24,7 @@ RULE = (
 ASSUMPTIONS = ["fake processes in the virtual lane", "when a cancel arrives while the time-limit kill sequence is still in progress either killed or cancelled is accepted"]
 
 
-QUICK_BUDGET = {"cases": 6000, "deadline_s": 90, "case_timeout_s": 120, "floors": {"final_states": 20000, "transitions": 40000, "logs_checked": 6000, "real_tasks": 20}}
+QUICK_BUDGET = {"cases": 6000, "deadline_s": 170, "case_timeout_s": 120, "floors": {"final_states": 13665, "transitions": 34658, "logs_checked": 4289, "real_tasks": 20}}
 THOROUGH_FACTOR = 30  # thorough = the same workload with 30x the cases (floors scale along)
 
 
